@@ -52,6 +52,23 @@ Further input classes:
     algorithm families and for the stored trials.
   * a continuation / recovery that RAISES where the uninterrupted run goes on
     is a failed case (`*.continuation-raises/*`, `*.recover-raises/*`).
+  * the FORM in which the history is handed to `recover` ("an iterable object"):
+    a list (everywhere) / a one-shot iterator (a generator that streams the
+    records, e.g. `((t.dna, t.get_reward_for_feedback()) for t in trials)`) /
+    an iterable that is neither a sequence nor an iterator (no len(), no
+    indexing) / a tuple -- for all algorithm families and the stored trials
+    (`*.history-as-<form>.*`; quick: the last crash point of every run as a
+    one-shot iterator, the middle one as re-iterable / tuple, rotating).
+  * USER-DEFINED algorithms, which implement the same DNAGenerator contract:
+    function-based generators made with the documented `pg.geno.dna_generator`
+    decorator, a DNAGenerator subclass that keeps the evaluated individuals
+    with their fitness through `_feedback` (recovered by the default replay),
+    one that recovers its position through a `_replay` override (so its
+    proposals are a function of the history: it must continue like the
+    uninterrupted run); each stand-alone, inside Deduping and as the population
+    initializer of an Evolution.  (For function-based generators only the
+    counters are compared: the decorator offers no replay hook, the statement
+    does not list them among the generators that continue exactly.)
 
 The oracle is the statement: "same observable state as the uninterrupted one";
 the reference is the uninterrupted instance itself, never a re-implementation
@@ -65,7 +82,80 @@ import pyglove as pg
 from pyglove.ext import evolution as ev
 from pyvc.bounded import Recorder, rng
 
-_NS = {'pg': pg, 'ev': ev}
+_NS = {'pg': pg, 'ev': ev, 'random': random}
+
+# User-defined algorithms (source kept short: it is part of the witnesses).
+#   FnSweep  function-based: every other point of the sweep (then exhausted)
+#   FnFile   function-based: reads persisted DNAs and binds them (the example
+#            of the decorator's documentation); 4 DNAs, then exhausted
+#   Best     subclass with `_feedback`: keeps the evaluated individuals with
+#            their fitness (`seen`); recovered by the default replay
+#   Walk     subclass with a `_replay` override: the i-th proposal is a function
+#            of i (random DNA from a generator seeded with i), and i is
+#            recovered from the history
+_USER_DEFS = {
+    'FnSweep': ("@pg.geno.dna_generator\ndef FnSweep(s):\n  for i,d in enumerate(s.iter_dna()):\n"
+                "    if i%2==0:yield d\n"),
+    'FnFile': ("@pg.geno.dna_generator\ndef FnFile(s):\n"
+               "  for d in pg.from_json_str(pg.to_json_str([d for _,d in zip(range(4),s.iter_dna())])):\n"
+               "    d.use_spec(s);yield d\n"),
+    'Best': ("class Best(pg.DNAGenerator):\n"
+             "  def _setup(s):s.r=random.Random(1);s.seen=[]\n"
+             "  def _propose(s):return pg.random_dna(s.dna_spec,s.r)\n"
+             "  def _feedback(s,d,r):s.seen.append((str(d),r))\n"),
+    'Walk': ("class Walk(pg.DNAGenerator):\n"
+             "  def _setup(s):s.i=0\n"
+             "  def _propose(s):s.i+=1;return pg.random_dna(s.dna_spec,random.Random(s.i))\n"
+             "  def _replay(s,i,d,r):s.i+=1\n"),
+}
+for _src in _USER_DEFS.values():
+  exec(_src, _NS)  # pylint: disable=exec-used
+
+
+def _prelude(algo_expr):
+  """Source of the user-defined algorithms `algo_expr` refers to."""
+  return ''.join(src for name, src in _USER_DEFS.items() if name + '(' in algo_expr)
+
+
+class _Reiterable:
+  """An Iterable that is neither a sequence nor an iterator."""
+
+  def __init__(self, items):
+    self._items = list(items)
+
+  def __iter__(self):
+    return iter(self._items)
+
+
+# The form in which the history is handed to recover(); the expression of the
+# witnesses (H is the list).
+_FORMS = {
+    'list': (lambda h: h, 'H'),
+    'one-shot-iterator': (lambda h: (x for x in h), '(x for x in H)'),
+    'reiterable': (_Reiterable, "type('I',(),{'__iter__':lambda s:iter(H)})()"),
+    'tuple': (tuple, 'tuple(H)'),
+}
+
+
+def _form_points(nsnaps, quick, rot):
+  """{crash point: form} -- at which crash points the history is ALSO handed
+  over in a form other than a list.  quick: the last crash point as a one-shot
+  iterator, the middle one as re-iterable / tuple (rotating); thorough: every
+  3rd crash point, the three forms rotating."""
+  if quick:
+    out = {nsnaps // 2: ('reiterable', 'tuple')[rot % 2]}
+    out[nsnaps - 1] = 'one-shot-iterator'
+    return out
+  forms = ('one-shot-iterator', 'reiterable', 'tuple')
+  return {ci: forms[(ci // 3 + rot) % 3] for ci in range(2, nsnaps, 3)}
+
+
+def _delivery_prefix(pre, chunk, form):
+  if chunk is not None:
+    return pre + '.two-recover-calls'
+  if form != 'list':
+    return f'{pre}.history-as-{form}'
+  return pre
 
 
 def _reseed(tag):
@@ -212,6 +302,17 @@ def _evo_configs(tier, seed):
        f"population_init=pg.geno.Deduping(pg.geno.Sweeping(), hash_fn={_SUM}), "
        "population_update=ev.selectors.Last(2))",
        False, True, ['c2xc3']),
+      # User-defined population initializers: a function-based generator
+      # (`pg.geno.dna_generator`) and a DNAGenerator subclass that recovers its
+      # position through `_replay`.
+      ('evolution-init-function-based',
+       f"ev.Evolution(ev.selectors.Top(1) >> {mut}, "
+       "population_init=(FnSweep(), 3), population_update=ev.selectors.Last(4))",
+       False, True, ['cond', 'many']),
+      ('evolution-init-user-class',
+       f"ev.Evolution(ev.selectors.Top(1) >> {mut}, "
+       "population_init=(Walk(), 3), population_update=ev.selectors.Last(3))",
+       False, True, ['c2xc3', 'cond']),
   ]
   cfgs += _update_configs(seed)
   if tier != 'quick':
@@ -297,6 +398,21 @@ def _dedup_evo_configs(tier, seed):
          False, True, ['many', 'float']),
     ]
   return cfgs
+
+
+def _user_configs(tier, seed):
+  """(kind, expr, spaces) for user-defined algorithms (see _USER_DEFS)."""
+  del tier, seed
+  return [
+      ('function-based', "FnSweep()", ['c2xc3', 'cond', 'many']),
+      ('function-based', "FnFile()", ['c3', 'many']),
+      ('user-class-feedback', "Best()", ['c2xc3', 'float', 'cond']),
+      ('user-class-replay', "Walk()", ['c3', 'cond', 'float']),
+      ('dedup-function-based', f"pg.geno.Deduping(FnSweep(), hash_fn={_SUM})", ['cond', 'many']),
+      ('dedup-user-class-replay',
+       f"pg.geno.Deduping(Walk(), hash_fn={_SUM}, max_duplicates=2, max_proposal_attempts=4)",
+       ['c2xc3', 'many']),
+  ]
 
 
 # ---------------------------------------------------------------------------
@@ -472,6 +588,8 @@ def _cache(algo):
 def _gen_kind(g):
   if isinstance(g, pg.geno.Deduping):
     return 'dedup-' + _gen_kind(g.generator)
+  if type(g).__name__ == 'SimpleDNAGenerator':
+    return 'function-based'
   return type(g).__name__.lower()
 
 
@@ -488,8 +606,14 @@ def _observe(algo):
     o['cache'] = _cache(algo)
     inner = algo.generator
     o['inner_counts'] = (inner.num_proposals, inner.num_feedbacks)
+  if hasattr(inner, 'seen'):
+    o['seen'] = list(inner.seen)    # (user-defined: evaluated individuals with fitness)
   if isinstance(inner, ev.Evolution):
     init = _initializer(inner)
+    # The initializers Sweeping, Random(seed), Deduping over them and a user
+    # class that recovers its position propose as a function of history and
+    # seed; a function-based one has no replay hook.
+    o['init_det'] = type(init).__name__ != 'SimpleDNAGenerator'
     o['init_counts'] = (init.num_proposals, init.num_feedbacks)
     o['init_kind'] = _gen_kind(init) + '-initializer'
     o['init_size'] = (inner.population_init[1] if isinstance(inner.population_init, tuple)
@@ -674,12 +798,12 @@ def _history(run, snap, variant, space=None):
   return out
 
 
-def _recovered(algo_expr, space, history, chunk=None):
+def _recovered(algo_expr, space, history, chunk=None, form='list'):
   _reseed('recovered')
   b = eval(algo_expr, _NS)  # pylint: disable=eval-used
   b.setup(space)
   if chunk is None:
-    b.recover(history)
+    b.recover(_FORMS[form][0](history))
   else:
     b.recover(history[:chunk])
     b.recover(history[chunk:])
@@ -713,7 +837,7 @@ def _raised(proposals):
 
 _W_HEAD = """import random,pyglove as pg
 ev=pg.evolution
-Z={space!r};S=eval(Z)
+{prelude}Z={space!r};S=eval(Z)
 mk=lambda:{algo}
 E={events};R={rewards}
 random.seed(1);a=mk();a.setup(S);P=[];J=[];F=[]
@@ -754,6 +878,8 @@ _W_CHECK = {
              "('proposal_id','initial_population')])(g.propose())"),
     'next_gen': "f=lambda g:g.propose().metadata.get('generation_id')",
     'next_dna': "f=lambda g:str(g.propose())",
+    'seen': "f=lambda g:g.seen",
+    'seen_sorted': "f=lambda g:sorted(g.seen,key=repr)",
     'init_np': f"f=lambda g:{_I}.num_proposals",
     'init_cache': f"f=lambda g:{{k:len(v) for k,v in {_I}._cache.items()}}",
 }
@@ -767,9 +893,11 @@ _W_CONT = """def f(g):
 """
 
 
-def _witness(space_expr, algo_expr, snap, variant, check, chunk=None, m=0, fresh=False):
-  rec = 'b.recover(H)' if chunk is None else f'b.recover(H[:{chunk}]);b.recover(H[{chunk}:])'
-  w = _W_HEAD.format(space=space_expr, algo=algo_expr,
+def _witness(space_expr, algo_expr, snap, variant, check, chunk=None, m=0, fresh=False,
+             form='list'):
+  rec = (f'b.recover({_FORMS[form][1]})' if chunk is None
+         else f'b.recover(H[:{chunk}]);b.recover(H[{chunk}:])')
+  w = _W_HEAD.format(space=space_expr, algo=algo_expr, prelude=_prelude(algo_expr),
                      target='eval(Z)' if fresh else 'S',
                      bind='[d.use_spec(T) for d,_ in H];' if variant == 'bound' else '',
                      events=repr([-e[1] - 1 if isinstance(e, tuple) else e
@@ -799,9 +927,11 @@ def _rot(items, start, count):
   return [items[(start + i) % len(items)] for i in range(min(count, len(items)))]
 
 
-def _det_combos(tier, seed, n):
+def _det_combos(tier, seed, n, configs=None):
   """Yields (kind, algo_expr, space_name, pattern_name, class, events)."""
-  for ci, (kind, algo_expr, spaces) in enumerate(_det_configs(tier, seed)):
+  if configs is None:
+    configs = _det_configs(tier, seed)
+  for ci, (kind, algo_expr, spaces) in enumerate(configs):
     if tier == 'quick' and len(spaces) > 2:
       # The first (smallest) space always; one of the others, rotated by seed.
       spaces = [spaces[0], spaces[1 + seed % (len(spaces) - 1)]]
@@ -836,10 +966,11 @@ def _evo_combos(configs, tier, seed, n):
           want.add(_OUT_OF_ORDER[(ci + j + seed) % len(_OUT_OF_ORDER)] if (ci + seed) % 2
                    else f'refused{(ci + j + seed) % 2}')
         else:
-          if 'init-dedup' not in kind:
+          own_init = any(t in kind for t in ('init-dedup', 'init-function', 'init-user'))
+          if not own_init:
             # (The order of the feedbacks is of no concern to an initializer.)
             want.add(_OUT_OF_ORDER[(ci + j + seed) % len(_OUT_OF_ORDER)])
-          if not multi:
+          if not multi and 'init-function' not in kind and 'init-user' not in kind:
             want.add(f'refused{(ci + j + seed) % 2}')
       else:
         ino = [p[0] for p in pats if p[1] == 'in-order' and not p[0].startswith('rand')]
@@ -880,17 +1011,31 @@ def drv_recover_deterministic(tier, seed):
              'recovering instance (every 4th); recovering instance set up on the same space object '
              '/ an equal space built anew (alternating); process-global RNG reseeded differently '
              'for the uninterrupted run and for each recovery'))
-  for kind, algo_expr, sp, pname, _, events in _det_combos(tier, seed, n):
+  _drv_det(rec, 'det', _det_combos(tier, seed, n), tier, seed, n, m)
+  return rec.result()
+
+
+# Kinds (of the user-defined driver) whose proposals are NOT claimed to be a
+# function of history and seed: function-based generators (no replay hook), a
+# user class that only consumes feedback, Deduping over them.
+_NO_CONTINUATION = ('function-based', 'user-class-feedback', 'dedup-function-based',
+                    'dedup-user-class-replay')
+
+
+def _drv_det(rec, pre0, combos, tier, seed, n, m):
+  quick = tier == 'quick'
+  for ri, (kind, algo_expr, sp, pname, _, events) in enumerate(combos):
     space_expr = SPACES[sp]
     r = rng(seed, f'c15-det-{algo_expr}-{sp}')
     rewards = _rewards(n + 2, False, r)
-    run = rec.guard(f'det.uninterrupted-run-error/{kind}', (algo_expr, sp, pname),
+    run = rec.guard(f'{pre0}.uninterrupted-run-error/{kind}', (algo_expr, sp, pname),
                     lambda: _Run(algo_expr, space_expr, events, rewards, extra=m + 1,  # pylint: disable=cell-var-from-loop
                                  continue_after_stop=True),
                     witness=f'# uninterrupted run of {algo_expr} on {space_expr} raised')
     if run is None or run is False:
       continue
     allp = run.all_proposals()
+    form_at = _form_points(len(run.snaps), quick, ri + seed)
     for ci, snap in enumerate(run.snaps):
       # Every crash point: the history as read back from JSON (DNAs with the
       # metadata as of the crash, NOT bound to a spec).  Rotating with the
@@ -904,21 +1049,29 @@ def drv_recover_deterministic(tier, seed):
       # The recovering instance is set up on the space object of the
       # uninterrupted run (even crash points) / on an equal space built anew.
       fresh = ci % 2 == 1
+      cls = _classify(snap['events'])
       for variant in variants:
-        chunks = [None]
+        deliveries = [(None, 'list')]
         k = snap['k']
         if k >= 2 and variant == 'crash' and (ci % 3 == 0 or (not quick and ci % 3 == 1)):
           # The history arrives in two recover() calls; the cut rotates.
-          chunks.append([k // 2, 1, k - 1][(ci // 3) % 3])
+          deliveries.append(([k // 2, 1, k - 1][(ci // 3) % 3], 'list'))
+        if k >= 1 and variant == 'crash' and ci in form_at:
+          # The history is handed over as a one-shot iterator / a re-iterable
+          # that is no sequence / a tuple.
+          deliveries.append((None, form_at[ci]))
         single_call = {}
-        for chunk in chunks:
-          key = (algo_expr, sp, pname, ci, variant, chunk, 'fresh-space' if fresh else 'same-space')
-          pre = 'det' if chunk is None else 'det.two-recover-calls'
+        for chunk, form in deliveries:
+          key = (algo_expr, sp, pname, ci, variant, chunk, form,
+                 'fresh-space' if fresh else 'same-space')
+          pre = _delivery_prefix(pre0, chunk, form)
+          first = chunk is None and form == 'list'
 
           def case(check, cid, ok, msg, wit):
-            # A failure of the split recovery is reported only if the same
-            # check passed for the single-call recovery (else: same defect).
-            if chunk is None:  # pylint: disable=cell-var-from-loop
+            # A failure of the split recovery / of another form of the history
+            # is reported only if the same check passed for the single-call
+            # recovery from a list (else: same defect).
+            if first:  # pylint: disable=cell-var-from-loop
               single_call[check] = ok  # pylint: disable=cell-var-from-loop
             elif not single_call.get(check, True):  # pylint: disable=cell-var-from-loop
               return
@@ -926,11 +1079,11 @@ def drv_recover_deterministic(tier, seed):
 
           def wit(check, m_=0):
             return _witness(space_expr, algo_expr, snap, variant, check, chunk, m=m_,  # pylint: disable=cell-var-from-loop
-                            fresh=fresh)  # pylint: disable=cell-var-from-loop
+                            fresh=fresh, form=form)  # pylint: disable=cell-var-from-loop
           try:
             space_b = _target_space(run, space_expr, fresh)
             hist = _history(run, snap, variant, space_b)
-            b = _recovered(algo_expr, space_b, hist, chunk)
+            b = _recovered(algo_expr, space_b, hist, chunk, form)
             ob = _observe(b)
           except Exception as e:  # pylint: disable=broad-except
             case('recover', f'{pre}.recover-raises/{kind}', False,
@@ -949,7 +1102,20 @@ def drv_recover_deterministic(tier, seed):
             cb = {k: len(v) for k, v in ob['cache'].items()}
             case('memory', f'{pre}.dedup-memory/{kind}{sfx}', ca == cb,
                  f'recovered key->count {cb}, uninterrupted {ca}', wit('cache_counts'))
-          if snap['failed_proposes']:
+          if 'seen' in oa:
+            # A user-defined algorithm that keeps the evaluated individuals with
+            # their fitness (its population).  The default replay feeds them in
+            # proposal order: with out-of-order feedback only the content is
+            # compared.
+            if cls == 'out-of-order':
+              norm, chk = (lambda x: sorted(x, key=repr)), 'seen_sorted'
+            else:
+              norm, chk = (lambda x: x), 'seen'
+            case('seen', f'{pre}.evaluated-individuals/{kind}/{_order(cls)}',
+                 norm(ob.get('seen', [])) == norm(oa['seen']),
+                 f'individuals with fitness the recovered instance knows {ob.get("seen")}, '
+                 f'the uninterrupted one {oa["seen"]}', wit(chk))
+          if snap['failed_proposes'] or kind in _NO_CONTINUATION:
             # The statement speaks of crash points after proposals and
             # feedbacks.  What a generator does after a propose() that raised
             # StopIteration (e.g. Deduping gave up after max_proposal_attempts
@@ -971,10 +1137,32 @@ def drv_recover_deterministic(tier, seed):
               cid += ('/rejected-duplicates-before-crash' if snap['rejected']
                       else '/no-rejected-duplicates-before-crash')
           case('continuation', cid, got == want,
-               f'recovered instance ({variant} history, '
+               f'recovered instance ({variant} history handed over as {form}, '
                f'{"DNAs bound to the space" if variant == "bound" else "DNAs not bound to a spec"}'
                f', {"space built anew" if fresh else "same space object"}) continues with {got}, '
                f'uninterrupted run with {want}', wit('continuation', len(want)))
+
+
+@_keeps_global_rng
+def drv_recover_user_defined(tier, seed):
+  quick = tier == 'quick'
+  n = 6 if quick else 8
+  m = 3 if quick else 5
+  rec = Recorder(
+      'C15', 'recover(): user-defined algorithms (pg.geno.dna_generator functions, DNAGenerator '
+      'subclasses)',
+      scope=('function-based generators made with pg.geno.dna_generator (every other point of the '
+             'sweep; DNAs read from a persisted list, 4 then exhausted), a DNAGenerator subclass '
+             'that keeps the evaluated individuals with fitness through _feedback (default replay), '
+             'one that recovers its position through a _replay override, Deduping over the '
+             f'function-based one and over the _replay one; spaces / N<={n} / patterns / crash '
+             'points / JSON / metadata variants / two recover() calls / forms of the history / '
+             'space anew / global RNG as in the deterministic driver; compares counts (all), '
+             'evaluated individuals with fitness (_feedback class; content only when feedback is '
+             f'out of order), dedup memory, the next {m} proposals (_replay class only: the '
+             'decorator offers no replay hook, so nothing is claimed about the continuation of '
+             'function-based generators)'))
+  _drv_det(rec, 'user', _det_combos(tier, seed, n, _user_configs(tier, seed)), tier, seed, n, m)
   return rec.result()
 
 
@@ -1084,9 +1272,9 @@ def _evo_checks(rec, pre, kind, single, cls, key, oa, ob, snap, nxt, b, wit, ded
       f'{pre}.next-proposal/{phase}/{tag}', key, got is not None and got[0] == nxt[1],
       f'next proposal of the recovered instance has (proposal_id, initial_population)='
       f'{got and got[0]} (error: {err}); the uninterrupted run proposes {nxt[1]}', wit('next'))
-  if ok and init_ok and phase == 'initial-population-phase':
-    # The initializers used here (Sweeping, Random(seed), Deduping over them)
-    # propose as a function of history and seed.
+  if ok and init_ok and phase == 'initial-population-phase' and oa['init_det']:
+    # These initializers (Sweeping, Random(seed), Deduping over them, a user
+    # class with a `_replay` override) propose as a function of history and seed.
     cid = f'{pre}.next-proposal-dna/initial-population-phase/{oa["init_kind"]}'
     if oa['init_rejected']:
       cid += '/rejected-duplicates-before-crash'
@@ -1101,7 +1289,8 @@ def _evo_checks(rec, pre, kind, single, cls, key, oa, ob, snap, nxt, b, wit, ded
 
 def _drv_evo(rec, pre, configs, tier, seed, n, dedup):
   quick = tier == 'quick'
-  for kind, algo_expr, multi, single, sp, pname, events in _evo_combos(configs, tier, seed, n):
+  for ri, (kind, algo_expr, multi, single, sp, pname, events) in enumerate(
+      _evo_combos(configs, tier, seed, n)):
     space_expr = SPACES[sp]
     r = rng(seed, f'c15-evo-{algo_expr}-{sp}')
     rewards = _rewards(n + 2, multi, r)
@@ -1111,6 +1300,7 @@ def _drv_evo(rec, pre, configs, tier, seed, n, dedup):
     if run is None or run is False:
       continue
     refused_pattern = pname.startswith('refused')
+    form_at = _form_points(len(run.snaps), quick, ri + seed)
     for ci, snap in enumerate(run.snaps):
       if refused_pattern and not snap['refused']:
         continue        # such prefixes are covered by the other patterns
@@ -1131,29 +1321,37 @@ def _drv_evo(rec, pre, configs, tier, seed, n, dedup):
       fresh = ci % 2 == 1
       k = snap['k']
       for variant in variants:
-        chunks = [None]
+        deliveries = [(None, 'list')]
         if k >= 2 and variant == 'crash' and (
             (ci % 3 == 1) if not quick
             else (ci % 4 == 3 and not refused_pattern and cls != 'out-of-order')):
           # The history arrives in two recover() calls ("could be called
           # multiple times if there are multiple source of history"); the cut
           # rotates, so it also falls inside the initial population.
-          chunks.append([k // 2, 1, k - 1][(ci // 4) % 3])
+          deliveries.append(([k // 2, 1, k - 1][(ci // 4) % 3], 'list'))
+        if k >= 1 and variant == 'crash' and ci in form_at:
+          # The history is handed over as a one-shot iterator (records streamed
+          # from storage) / a re-iterable that is no sequence / a tuple.
+          deliveries.append((None, form_at[ci]))
         failed_single = set()
-        for chunk in chunks:
-          key = (algo_expr, sp, pname, ci, variant, chunk, 'fresh-space' if fresh else 'same-space')
-          wit = (lambda check, _s=snap, _v=variant, _c=chunk, _f=fresh:
-                 _witness(space_expr, algo_expr, _s, _v, check, _c, fresh=_f))  # pylint: disable=cell-var-from-loop
-          if chunk is None:
+        for chunk, form in deliveries:
+          key = (algo_expr, sp, pname, ci, variant, chunk, form,
+                 'fresh-space' if fresh else 'same-space')
+          wit = (lambda check, _s=snap, _v=variant, _c=chunk, _f=fresh, _fm=form:
+                 _witness(space_expr, algo_expr, _s, _v, check, _c, fresh=_f, form=_fm))  # pylint: disable=cell-var-from-loop
+          first = chunk is None and form == 'list'
+          if first:
             sub = _SubRec(rec)
           else:
-            # A failure of the split recovery is reported only if the same
-            # check passed for the single-call recovery (else: same defect).
-            sub = _SubRec(rec, rename=(pre + '.', pre + '.two-recover-calls.'), skip=failed_single)
+            # A failure of the split recovery / of another form of the history
+            # is reported only if the same check passed for the single-call
+            # recovery from a list (else: same defect).
+            sub = _SubRec(rec, rename=(pre + '.', _delivery_prefix(pre, chunk, form) + '.'),
+                          skip=failed_single)
           try:
             space_b = _target_space(run, space_expr, fresh)
             hist = _history(run, snap, variant, space_b)
-            b = _recovered(algo_expr, space_b, hist, chunk)
+            b = _recovered(algo_expr, space_b, hist, chunk, form)
             ob = _observe(b)
           except Exception as e:  # pylint: disable=broad-except
             sub.case(f'{pre}.recover-raises/{_order(cls)}', key, False,
@@ -1162,7 +1360,7 @@ def _drv_evo(rec, pre, configs, tier, seed, n, dedup):
           else:
             _evo_checks(sub, pre, kind, single, cls, key, snap['obs'], ob, snap, nxt,
                         b, wit, dedup)
-          if chunk is None:
+          if first:
             failed_single = sub.failed
 
 
@@ -1207,6 +1405,9 @@ def drv_recover_evolution(tier, seed):
              'seed=0), Last(f(step)) (quick: in-order + holes + one of out-of-order/refused); '
              '(thorough: 1 space each); history in two recover() calls (quick: every 4th crash '
              'point of the in-order/holes patterns, thorough: every 3rd; cut k/2, 1, k-1 rotating); space object same / built anew alternating; '
+             'history also as a one-shot iterator / re-iterable non-sequence / tuple as in the '
+             'deterministic driver; Evolution with a user-defined population initializer '
+             '(pg.geno.dna_generator function; DNAGenerator subclass with _replay), sized 3; '
              'process-global RNG reseeded differently for the uninterrupted run and each recovery'))
   _drv_evo(rec, 'evo', _evo_configs(tier, seed), tier, seed, n, dedup=False)
   return rec.result()
@@ -1224,7 +1425,7 @@ def drv_recover_dedup_evolution(tier, seed):
              'population, dedup memory (key -> rewards), id/phase of the next proposal; + one '
              'pattern with refused feedback calls as in the evolution driver; + Deduping over an '
              'Evolution with a seeded random population update (seed 0); two recover() calls, '
-             'space anew and global RNG as in the evolution driver'))
+             'space anew, forms of the history and global RNG as in the evolution driver'))
   _drv_evo(rec, 'dedup-evo', _dedup_evo_configs(tier, seed), tier, seed, n, dedup=True)
   return rec.result()
 
@@ -1409,7 +1610,9 @@ def drv_recover_from_trials(tier, seed):
              'trial.get_reward_for_feedback(metrics)); compares counts, population+fitness, dedup '
              f'memory, the next {m} proposals of the deterministic generators (a continuation that '
              'raises is a failed case); + Evolution with a seeded random population update (seed '
-             '0); every 3rd crash point also with the trials delivered in two recover() calls'
+             '0); every 3rd crash point also with the trials delivered in two recover() calls; '
+             'last crash point of every run (thorough: every 3rd): history built lazily from the '
+             'trials (generator expression), middle one: re-iterable non-sequence / tuple'
              + ('; quick: 1 space x 2 patterns (generators without feedback: 1) per algorithm, rotated by seed' if quick else '')))
   for ci, (kind, algo_expr, metrics, det, spaces) in enumerate(_trial_configs(tier, seed)):
     if quick:
@@ -1429,41 +1632,56 @@ def drv_recover_from_trials(tier, seed):
         if run is None or run is False:
           continue
         allp = run.outcomes + run.tail
+        form_at = _form_points(len(run.snaps), quick, ci + j + seed)
         for ci2, snap in enumerate(run.snaps):
           tcls = _trial_class(snap['state'])
-          chunks = [None]
+          deliveries = [(None, 'list')]
           if snap['k'] >= 2 and ci2 % 3 == 1:
             # Trials of two sources (e.g. an earlier study + the current one):
             # the history arrives in two recover() calls.
-            chunks.append([snap['k'] // 2, 1, snap['k'] - 1][(ci2 // 3) % 3])
+            deliveries.append(([snap['k'] // 2, 1, snap['k'] - 1][(ci2 // 3) % 3], 'list'))
+          if ci2 in form_at:
+            # The history is built lazily from the stored trials (a generator
+            # expression over them) / is a re-iterable non-sequence / a tuple.
+            deliveries.append((None, form_at[ci2]))
           failed_single = set()
-          for chunk in chunks:
-            key = (algo_expr, sp, pname, ci2, chunk)
-            if chunk is None:
+          for chunk, form in deliveries:
+            key = (algo_expr, sp, pname, ci2, chunk, form)
+            first = chunk is None and form == 'list'
+            if first:
               sub = _SubRec(rec)
             else:
-              sub = _SubRec(rec, rename=('trials.', 'trials.two-recover-calls.'),
+              sub = _SubRec(rec, rename=('trials.', _delivery_prefix('trials', chunk, form) + '.'),
                             skip=failed_single)
 
-            def wit(check, m_=0, _s=snap, _c=chunk):
+            def wit(check, m_=0, _s=snap, _c=chunk, _fm=form):
               w = _W_TRIALS.format(
                   space=space_expr, algo=algo_expr, metrics=metrics, args=_w_args(metrics),  # pylint: disable=cell-var-from-loop
                   events=repr([e if e == 'p' else f'{e[0]}{e[1]}' for e in _s['events']]).replace(' ', ''),
                   rewards=repr(rewards[:_s['k'] + 1]).replace(' ', ''),  # pylint: disable=cell-var-from-loop
-                  recover=('b.recover(H)' if _c is None
+                  recover=(f'b.recover({_FORMS[_fm][1]})' if _c is None
                            else f'b.recover(H[:{_c}]);b.recover(H[{_c}:])'))
+              if _fm == 'one-shot-iterator':     # (built lazily from the trials)
+                w = w.replace('H=[(t.dna,t.get_reward_for_feedback(M)) for t in T]',
+                              'H=((t.dna,t.get_reward_for_feedback(M)) for t in T)'
+                              ).replace('b.recover((x for x in H))', 'b.recover(H)')
               w += (_W_CONT.format(m=m_) if check == 'continuation' else _W_CHECK[check] + '\n')
               return w + 'x,y=f(b),f(a)\nassert x==y,(x,y)'
             try:
               trials = pg.from_json_str(snap['trials_json'])
-              hist = [(t.dna, t.get_reward_for_feedback(metrics)) for t in trials]
-              b = _recovered(algo_expr, run.space, hist, chunk)
+              if form == 'one-shot-iterator':
+                # (Lazily: dna and reward are read when recover() asks for them.)
+                hist = ((t.dna, t.get_reward_for_feedback(metrics)) for t in trials)
+                b = _recovered(algo_expr, run.space, hist)
+              else:
+                hist = [(t.dna, t.get_reward_for_feedback(metrics)) for t in trials]
+                b = _recovered(algo_expr, run.space, hist, chunk, form)
               ob = _observe(b)
             except Exception as e:  # pylint: disable=broad-except
               sub.case(f'trials.recover-raises/{tcls}', key, False,
                        f'building the history from the stored trials / recover / reading the '
                        f'state raised {type(e).__name__}: {e}', wit('counts'))
-              if chunk is None:
+              if first:
                 failed_single = sub.failed
               continue
             oa = snap['obs']
@@ -1488,13 +1706,13 @@ def drv_recover_from_trials(tier, seed):
                 sub.case(f'trials.{what}/{kind}/{tcls}', key, got == want,
                          f'recovered instance continues with {got}, uninterrupted run with {want}',
                          wit('continuation', len(want)))
-            if chunk is None:
+            if first:
               failed_single = sub.failed
   return rec.result()
 
 
 DRIVERS = [drv_recover_deterministic, drv_recover_evolution, drv_recover_dedup_evolution,
-           drv_recover_from_trials]
+           drv_recover_from_trials, drv_recover_user_defined]
 
 
 def replay(rec):
